@@ -122,6 +122,14 @@ def simulate(g, rng):
     return None
 
 
+def regenerate():
+    sys.path.insert(0, os.path.join(VERIF, 'translators'))
+    import tr_locks
+    txt, m = tr_locks.generate_seg_guard()
+    write_if_changed(os.path.join(GEN, 'SegGuardGen.v'), txt)
+    return m
+
+
 def cut_assign_function(dst):
     """The text of assign_enc_dec_segments as it stands in /repo, written to dst (included by harness/unit/segproto_harness.c)."""
     src = open(os.path.join(REPO, 'Source/Lib/Encoder/Codec/EbEncDecProcess.c'), errors='replace').read()
@@ -207,7 +215,12 @@ def protocol_run(lk, grid, rng, workers, with_model=True):
 def run(ck):
     ck.trust('Coq 8.16.1 kernel (coqc); no native_compute', 'extraction (ExtrOcamlBasic only; nat stays unary) + obs/c24.ml',
              'harness/unit/seg_harness.c calls the real enc_dec_segments_ctor/init; the superblock walk is transcribed in SegGrid.v from EbEncDecProcess.c (compared on the C arrays); the assignment protocol of SegProto.v runs call by call against the current text of assign_enc_dec_segments (harness/unit/segproto_harness.c, obs/c24p.ml; ExtrOcamlNatInt)', 'gcc')
-    ck.prove('Properties_C24', extra_modules=['Proofs_C24', 'SegGrid', 'SegProto'])
+    try:
+        gm = regenerate()
+        ck.obligation('translate(critical sections of assign_enc_dec_segments -> gen/SegGuardGen.v)', gm['keyed'] >= 4 and gm['plain'] >= 2, '%d row-cursor writes, %d dependency-map writes found (expected at least 4 / 2)' % (gm['keyed'], gm['plain']))
+    except Exception as e:
+        ck.obligation('translate(critical sections of assign_enc_dec_segments -> gen/SegGuardGen.v)', False, repr(e)[:400])
+    ck.prove('Properties_C24', extra_modules=['Proofs_C24', 'SegGrid', 'SegProto', 'GuardFlow'], gen_modules=['SegGuardGen'])
     hd = os.path.join(CACHE, 'h', 'c24'); os.makedirs(hd, exist_ok=True)
     hbin = os.path.join(hd, 'seg_h')
     ok, log = build.cc(hbin, [os.path.join(VERIF, 'harness/unit/seg_harness.c')] + [os.path.join(REPO, s) for s in SRC], flags='-DNDEBUG -w')
